@@ -87,6 +87,7 @@ PLAN = {
     },
     "C03": {
         "level": "proof",
+        "lemmas": True,
         "contracts": ["contracts.evaluation", "contracts.search_loop"],
     },
 }
